@@ -5,6 +5,7 @@ match_no_control inlined).  Events: start, rule (the inner Rule::match boundary)
 success, failure, unwind, raise; exits: return b / exception.  The executor enumerates the complete
 finite table of (event sequence, exit, result, cursor class); the assertions H1-H7 are checked on it."""
 import collections
+from . import core
 from .exec import *
 from .mon_base import *
 
@@ -106,6 +107,13 @@ def check_dispatch(db, fn, out, mon):
             # H3 the action must have been called when the shape has one and the rule matched
             if act_methods is not None and A == 1 and rulev == ['rule:T']:
                 want = [m for m in ('apply', 'apply0') if m in act_methods]
+                if core.is_repo_unit(fn.get('_unit')):
+                    # user actions of the tests and examples: an apply / apply0 only counts when it is callable with the states of this parse
+                    # (the dispatch's own folded has_apply... constants); in the universe every declared member is callable, so the strict form applies there
+                    from .exc import walk
+                    folded = {d.get('n'): d.get('init', {}).get('v') for s2 in walk(fn.get('body'), lambda n: n.get('k') == 'Decl', []) for d in s2.get('decls', []) if (d.get('n') or '').startswith('has_apply')}
+                    if folded:
+                        want = [m for m in want if any(v for k, v in folded.items() if k.startswith('has_' + m + '_'))]
                 got = [names[i] for i in ai]
                 if want and got != want[:1]: probs.append(('H3', 'rule matched with actions enabled and Action has %s, but the calls were %s' % (want, got), row))
         else:
